@@ -15,13 +15,14 @@ import (
 func init() { Registry["C11"] = c11 }
 
 func c11(c *core.Ctx) map[string]interface{} {
-	c.Explanation = "Static digit-placement check of the SUCI / PLMN encodings (C11). Decided: (R11.hex) hexCharToByte maps '0'..'9' to 0..9 and never yields more than a nibble; (R11.hexconst) every constant that can reach hexCharToByte (traced backwards through slices, appends, merges and package-local helper parameters) is a hexadecimal digit character, so no filler or literal digit is silently turned into 0; (R11.nib) in EncodeSuci, for both MNC lengths, the nibble provenance of octets 1..3 is (MCC2|MCC1),(MNC3 or F|MCC3),(MNC2|MNC1) (TS 24.501 9.11.3.4 / TS 38.413 PLMNIdentity), the MSIN starts after 5 resp. 6 digits, the MSIN loop packs digit pairs (i+1|i) from i=0 in steps of 2 with filler F for a final odd digit, and the decision between the two layouts is mncLen > 2; (R11.hdr) octet 0 is SUPI format IMSI<<4 | type SUCI, routing indicator F0 FF, protection scheme 0, key id 0, Len is the final buffer length; (R11.sib) the library's own PlmnIDToNas places the digits identically (sibling agreement), with filler F exactly when the MNC has not 3 digits; (R11.plmn) ManageNGSetup announces octets 1..3 of EncodeSuci(IMSI, len(mnc)), BuildNGSetupRequest stores that value in TestPlmn and in the PLMN fields of the request, and every builder behind a wrapper that main uses takes its PLMN identities from TestPlmn. NOT decided: digit values for non-decimal characters; PLMNs of builders the emulator never calls (listed under C13)."
+	c.Explanation = "Static digit-placement check of the SUCI / PLMN encodings (C11). Decided: (R11.hex) hexCharToByte maps '0'..'9' to 0..9 and never yields more than a nibble; (R11.hexconst) every constant that can reach hexCharToByte (traced backwards through slices, appends, merges and package-local helper parameters) is a hexadecimal digit character, so no filler or literal digit is silently turned into 0; (R11.nib) in EncodeSuci, for both MNC lengths, the nibble provenance of octets 1..3 is (MCC2|MCC1),(MNC3 or F|MCC3),(MNC2|MNC1) (TS 24.501 9.11.3.4 / TS 38.413 PLMNIdentity), the MSIN starts after 5 resp. 6 digits, the MSIN loop packs digit pairs (i+1|i) from i=0 in steps of 2 with filler F for a final odd digit, and the decision between the two layouts is mncLen > 2; (R11.hdr) octet 0 is SUPI format IMSI<<4 | type SUCI, routing indicator F0 FF, protection scheme 0, key id 0, Len is the final buffer length; (R11.sib) the library's own PlmnIDToNas places the digits identically (sibling agreement), with filler F exactly when the MNC has not 3 digits; (R11.plmn) ManageNGSetup announces octets 1..3 of EncodeSuci(IMSI, len(mnc)), BuildNGSetupRequest stores that value in TestPlmn and in the PLMN fields of the request, and every builder behind a wrapper that main uses takes its PLMN identities from TestPlmn. (R13.pure) message construction keeps no package-level state besides TestPlmn, so a user-location IE built later cannot repeat an older PLMN from a cached IE. NOT decided: digit values for non-decimal characters; PLMNs of builders the emulator never calls (listed under C13)."
 	c.Assumptions = []string{"IMSI digits arrive as ASCII decimal characters, MCC has 3 digits (TS 23.003)"}
 	r11hex(c)
 	r11hexconst(c)
 	r11suci(c)
 	r11sib(c)
 	r11plmn(c)
+	r13pure(c)
 	return nil
 }
 
